@@ -197,6 +197,16 @@ class StoreProfile(Profile):
             return
         run.scratch.setdefault("junk", []).append(rel)
         run.fired["junk:" + step["kind"]] += 1
+        # monitor[C06] (unclaimed, reported only): a foreign path handed to Sid(path=...) never raises, and when it
+        # yields a typed Sid, that Sid's path is the path
+        if not rel.startswith("@cwd/"):
+            for c in run.m.configs:
+                mp = "<W>/" + rel
+                o = run.do(X.seq(X.call("Sid", path=mp, config=c), X.meth(X.call("Sid", path=mp, config=c), "path", c)))["~seq"]
+                run.probes["c06_monitor_paths"] += 1
+                typed = isinstance(o[0], dict) and "~S" in o[0] and o[0]["~S"][0]
+                if X.is_exc(o[0]) or (typed and not (isinstance(o[1], dict) and o[1].get("~P") == mp)):
+                    run.probes["c06_monitor_anomalies"] += 1
 
     # ------------------------------------------------------------------ finders
     def finder_exprs(self, run):
